@@ -167,6 +167,15 @@ theorem tso_structure_facts :
     PdModel.Generated.Tso.resetMemHoldsTsoMux = true ∧
     PdModel.Generated.Tso.generateHoldsTsoMux = true ∧
     PdModel.Generated.Tso.setPhysicalHoldsTsoMux = true ∧
+    -- persist before publish (U2;U3, S2;S3), load before save (S1;S2), the lease re-check after generating,
+    -- the window write guarded by the leader record, the leadership pre-check of both GenerateTSO
+    PdModel.Generated.Tso.updateSavesBeforePublish = true ∧
+    PdModel.Generated.Tso.syncSavesBeforePublish = true ∧
+    PdModel.Generated.Tso.syncLoadsBeforeSave = true ∧
+    PdModel.Generated.Tso.getTSRechecksLease = true ∧
+    PdModel.Generated.Tso.saveUsesLeaderTxn = true ∧
+    PdModel.Generated.Tso.globalGenerateChecksLease = true ∧
+    PdModel.Generated.Tso.localGenerateChecksLease = true ∧
     PdModel.Generated.Tso.maxLogical = 2 ^ PdModel.Generated.Tso.physicalShiftBits := by decide
 
 /-! ### client side -/
